@@ -43,6 +43,13 @@ type W struct {
 	Src    string      `json:"src"`  // td (codec.Write) | ref (reference encoder) | listener (transport.Conn.Send -> Listener.Accept)
 	Frames []Frame     `json:"frames"`
 	Chunk  rt.Chunking `json:"chunk"`
+	// Conns > 1 (src listener): that many connections one after the other, made by Handshake from the
+	// same transport.Protocol value and accepted by the same transport.Listener; each carries the
+	// whole session.
+	Conns int `json:"connections,omitempty"`
+	// Echo (src listener): after receiving, the accepting side sends every payload back with Send on
+	// the accepted connection and the connecting side reads them with Recv (server -> client).
+	Echo bool `json:"echo,omitempty"`
 }
 
 const obfDC = 2
@@ -300,6 +307,9 @@ func wantCode(code int32) int32 { return -code } // wraps for MinInt32, as any i
 // eval: a failure in a session that contained rejected sends is attributed to them (own class)
 // when the same session without the rejected sends passes; otherwise the original class stands.
 func eval(w W) kit.Result {
+	if w.Conns > 1 || w.Echo {
+		return evalDuplex(w)
+	}
 	r, rejected := evalSession(w)
 	if r.Class == "" || len(rejected) == 0 || strings.HasPrefix(r.Class, "rejected-send-wrote-bytes:") {
 		return r
@@ -463,6 +473,173 @@ func evalAccepted(w W, wire []byte, frames []Frame, payloads [][]byte, nRejected
 	return kit.OKo(w.Proto + ":" + w.Wrap + ":" + outcome)
 }
 
+// recvAll reads len(payloads) frames and then expects no further frame. where names the leg
+// ("" = first connection client->server; ":server-to-client", ":connection-2", ...).
+func recvAll(w W, where string, recv func(b *bin.Buffer) error, payloads [][]byte) *kit.Result {
+	fail := func(class, f string, a ...any) *kit.Result {
+		r := kit.Bad(class+":"+w.Proto+where, f, a...)
+		return &r
+	}
+	b := &bin.Buffer{}
+	for i, p := range payloads {
+		err := recv(b)
+		if len(p) == 4 {
+			code := int32(binary.LittleEndian.Uint32(p))
+			var pe *codec.ProtocolErr
+			if !errors.As(err, &pe) || pe.Code != wantCode(code) {
+				return fail("error-code", "frame %d is the 4-byte value %d: want ProtocolErr{%d}, got err=%v buf=%x", i, code, wantCode(code), err, b.Buf)
+			}
+			continue
+		}
+		if err != nil {
+			return fail("recv-error", "frame %d (%d bytes) of %d: %v", i, len(p), len(payloads), err)
+		}
+		if !bytes.Equal(b.Buf, p) {
+			return fail("payload-mismatch", "frame %d: got %d bytes %s, sent %d bytes %s", i, b.Len(), head(b.Buf), len(p), head(p))
+		}
+	}
+	if err := recv(b); err == nil {
+		return fail("extra-frame", "after the %d sent frames one more Recv returned a %d-byte frame", len(payloads), b.Len())
+	}
+	return nil
+}
+
+// refFrames checks a td-produced frame stream (no connection header) against the reference decoder.
+func refFrames(w W, where string, body []byte, payloads [][]byte) *kit.Result {
+	fail := func(f string, a ...any) *kit.Result {
+		r := kit.Bad("td-stream-not-spec:"+w.Proto+where, f, a...)
+		return &r
+	}
+	frames, err := rt.DecodeStream(w.Proto, 0, body)
+	if err != nil {
+		return fail("reference decoder: %v", err)
+	}
+	if len(frames) != len(payloads) {
+		return fail("reference decoder sees %d frames, %d were sent", len(frames), len(payloads))
+	}
+	for i, p := range payloads {
+		f := frames[i]
+		if w.Proto == rt.Padded {
+			if len(f) < len(p) || len(f)-len(p) > 15 || !bytes.Equal(f[:len(p)], p) {
+				return fail("frame %d: %d bytes on the wire for a %d-byte payload (padding must be 0..15) or content differs", i, len(f), len(p))
+			}
+			continue
+		}
+		if !bytes.Equal(f, p) {
+			return fail("frame %d differs from payload (%d vs %d bytes)", i, len(f), len(p))
+		}
+	}
+	return nil
+}
+
+// evalDuplex: src listener only, payloads all acceptable. Conns connections in sequence from one
+// Protocol value into one Listener; on each the client sends all payloads, the accepting side
+// receives them and (Echo) sends them back, the client receives them.
+func evalDuplex(w W) kit.Result {
+	if w.Src != "listener" {
+		panic("duplex sessions are listener sessions")
+	}
+	payloads := make([][]byte, len(w.Frames))
+	for i := range w.Frames {
+		payloads[i] = payloadOf(w, i)
+		if !mustAccept(w.Proto, len(payloads[i])) {
+			panic("duplex sessions carry acceptable payloads only")
+		}
+	}
+	ln := &rt.Listener{}
+	var l transport.Listener
+	if isObf(w.Wrap) {
+		l = transport.Listen(transport.ObfuscatedListener(ln))
+	} else {
+		l = transport.Listen(ln)
+	}
+	// one Protocol value for all connections, as a dialer holds it
+	proto := protocolOf(w.Proto)
+	if isObf(w.Wrap) {
+		name := w.Proto
+		proto = transport.NewProtocol(func() transport.Codec { return codec.NoHeader{Codec: protocolOf(name).Codec()} })
+	}
+	conns := w.Conns
+	if conns < 1 {
+		conns = 1
+	}
+	for k := 0; k < conns; k++ {
+		where := ""
+		if k > 0 {
+			where = fmt.Sprintf(":connection-%d", k+1)
+		}
+		cconn := &rt.Conn{}
+		var under net.Conn = cconn
+		if isObf(w.Wrap) {
+			oc := obfuscator.Obfuscated2(kit.NewStream(uint64(11+k)), cconn)
+			if err := oc.Handshake(rt.Tag(w.Proto), obfDC, mtproxy.Secret{}); err != nil {
+				return kit.Bad("obf-handshake", "%v", err)
+			}
+			under = oc
+		}
+		tc, err := proto.Handshake(under)
+		if err != nil {
+			return kit.Bad("send-error:"+w.Proto+where, "Handshake: %v", err)
+		}
+		for i, p := range payloads {
+			if err := tc.Send(context.Background(), &bin.Buffer{Buf: append([]byte(nil), p...)}); err != nil {
+				return kit.Bad("send-error:"+w.Proto+where, "send of payload %d (%d bytes): %v", i, len(p), err)
+			}
+		}
+		wire := cconn.W
+		if r := specCheck(w, wire, payloads); r != nil {
+			r.Class += where
+			return *r
+		}
+		sconn := rt.NewConn(wire, w.Chunk)
+		ln.Queue = append(ln.Queue, sconn)
+		sc, err := l.Accept()
+		if err != nil {
+			return kit.Bad("listener-accept:"+w.Proto+where, "Accept: %v", err)
+		}
+		if got := codecName(transport.VerifCodecOf(sc)); got != w.Proto {
+			return kit.Bad("listener-detect:"+w.Proto+"->"+got+where, "client chose %s, listener detected %s", w.Proto, got)
+		}
+		if r := recvAll(w, where, func(b *bin.Buffer) error { return sc.Recv(context.Background(), b) }, payloads); r != nil {
+			return *r
+		}
+		if !w.Echo {
+			continue
+		}
+		where += ":server-to-client"
+		for i, p := range payloads {
+			if err := sc.Send(context.Background(), &bin.Buffer{Buf: append([]byte(nil), p...)}); err != nil {
+				return kit.Bad("send-error:"+w.Proto+where, "send of payload %d (%d bytes) on the accepted connection: %v", i, len(p), err)
+			}
+		}
+		back := sconn.W
+		body := back
+		if isObf(w.Wrap) {
+			if len(wire) < 64 {
+				panic("obfuscated stream without header")
+			}
+			body = make([]byte, len(back))
+			rt.Obf2FromHeader(wire[:64], nil).S2C.XORKeyStream(body, back)
+		}
+		// the accepting side sends no connection header
+		if r := refFrames(w, where, body, payloads); r != nil {
+			return *r
+		}
+		cconn.R = rt.NewScriptReader(back, w.Chunk)
+		if r := recvAll(w, where, func(b *bin.Buffer) error { return tc.Recv(context.Background(), b) }, payloads); r != nil {
+			return *r
+		}
+	}
+	out := w.Proto + ":" + w.Wrap + ":duplex"
+	if w.Echo {
+		out += ":echo"
+	}
+	if conns > 1 {
+		out += fmt.Sprintf(":%d-connections", conns)
+	}
+	return kit.OKo(out)
+}
+
 func head(b []byte) string {
 	if len(b) > 24 {
 		return fmt.Sprintf("%x…", b[:24])
@@ -522,6 +699,7 @@ func main() {
 			"payload sequences: all sequences of length<=2 over {4(error code),8,12,500,504,508,512} plus triples over {8,504,508} (thorough: triples over {4,8,504,508,512}), padded-intermediate padding 0..3 on every position; " +
 			"chunkings of the receiving side: whole, 1-byte reads, every single split point (streams <= 2 KiB), every pair of split points (sequences over {4,8,12} with streams <= 64 B, or <= 64 B after the 64-byte obfuscated2 header); " +
 			"sessions with rejected sends (empty payload, length 6/10 not divisible by 4, 16 MiB+4) interleaved with accepted ones, 11 shapes with every single split + 3 shapes with the over-limit payload, td and listener senders, all protocols and wrappings; " +
+			"duplex listener sessions (all protocols, plain and obfuscated): payload sequences {8}, {8,504,508}, {508,4,12}, {12,8,8,512} on 1, 2 (thorough 3) connections made one after the other by Handshake from one transport.Protocol value and accepted by one transport.Listener, with and without echo = the accepting side sends every payload back with Send on the accepted connection (no connection header, obfuscated with the server-to-client key) and the connecting side reads them with Recv; every single split point (applied to both directions) for one connection and for {8} on two, whole / 1-byte / 7-byte reads otherwise; classes carry :connection-<k> and :server-to-client; " +
 			"large frames 64 KiB and 256 KiB (thorough: 1 MiB, 16 MiB-16, -12, -8, -4, 16 MiB, 16 MiB+4) with whole / 4 KiB / 64 KiB / 1-byte / edge splits; 4-byte frames with 9 code values; reference sender with 4..15 padding bytes (informational). " +
 			"A split point p means one Read ends exactly at stream offset p, i.e. a short read of any size at any Read call (this subsumes <=2 short-read deviations). " +
 			"Oracle: a send that returns an error has written nothing; received payloads == accepted payloads in order, then no further frame; 4-byte frame => *codec.ProtocolErr{Code: -value}; td-produced streams parse to the same payloads under the reference decoder; " +
@@ -646,6 +824,32 @@ func main() {
 					}
 					for _, s := range overSeqs {
 						jobs = append(jobs, job{base: W{Proto: proto, Wrap: wrap, Src: src, Frames: mk(s, []int{1, 3, 2})}, list: both, big: true})
+					}
+				}
+			}
+		}
+		// both directions and consecutive connections: listener sessions in which the accepting side
+		// sends everything back, and 2 (thorough 3) connections from one Protocol into one Listener
+		duplexSeqs := [][]int{{8}, {8, 504, 508}, {508, 4, 12}, {12, 8, 8, 512}}
+		for _, proto := range rt.Protocols {
+			for _, wrap := range wrapsOf(proto, "listener") {
+				for _, s := range duplexSeqs {
+					for _, conns := range []int{1, 2, 3} {
+						if conns == 3 && c.Quick() {
+							continue
+						}
+						for _, echo := range []bool{true, false} {
+							if conns == 1 && !echo {
+								continue // the plain listener session above
+							}
+							j := job{base: W{Proto: proto, Wrap: wrap, Src: "listener", Frames: mk(s, []int{2, 0, 3, 1}), Conns: conns, Echo: echo}}
+							if conns == 1 || (len(s) == 1 && conns == 2) {
+								j.single = true // every single split point, applied to both directions
+							} else {
+								j.list = []rt.Chunking{rt.Whole(), rt.OneByte(), rt.Every(7)}
+							}
+							jobs = append(jobs, j)
+						}
 					}
 				}
 			}
